@@ -286,7 +286,9 @@ impl SvgElement {
         // TODO: refactor this method to handle text event gen better
         let phantom = matches!(self.name.as_str(), "point" | "box");
 
-        if self.has_attr("text") {
+        // (an `<svg>` element is a container, not a shape: text following an
+        // empty root element would be a second root)
+        if self.has_attr("text") && self.name != "svg" {
             let (orig_elem, text_elements) = process_text_attr(self)?;
             if orig_elem.name != "text" && !phantom {
                 // We only care about the original element if it wasn't a text element
